@@ -61,11 +61,11 @@ SCOPE = ("R1 inverse(forward(x)) = x; R2 the two reported log-Jacobians sum to z
          "is the same at two independent points (reported log-Jacobian = log|det J| + constant); R4 prime prior support / prior-Jacobian consistency where a prime prior exists.")
 ASSUMPTIONS = [
     "exact real arithmetic; exp/log through their algebraic laws (C02)",
-    "trigonometric axioms, instantiated on the terms that occur: sin^2+cos^2=1; arctan2(y,x)=phi => -pi<phi<=pi, rho cos phi = x, rho sin phi = y with rho>=0, rho^2=x^2+y^2; (cos a, sin a) = (cos b, sin b) => a-b in 2 pi Z; the double nearest to pi is treated as pi",
+    "trigonometric axioms, instantiated on the terms that occur: sin^2+cos^2=1; sin > 0 on (0, pi) and cos > 0 on (-pi/2, pi/2) for the zenith / declination angle; arctan2(y,x)=phi => -pi<phi<=pi, rho cos phi = x, rho sin phi = y with rho>=0, rho^2=x^2+y^2; (cos a, sin a) = (cos b, sin b) => a-b in 2 pi Z; the double nearest to pi is treated as pi",
     "sqrt(u) is the non-negative root",
     "the random choice of which points are reflected (inversion 'split', ToCartesian 'split') is arbitrary (forked)",
 ]
-OUTSIDE = ["ToCartesian and AnglePair (3-D angle maps): the solver is inconclusive on the trigonometric round trip within 10 minutes, so they are not part of the claim", "the gravitational-wave reparameterisations (distance converters, delta-phase)", "the comoving-distance converter of the GW reparameterisations (astropy, spline tables)", "detect_edge's histogram heuristic (its result is a symbolic choice through the code's own test= hook)",
+OUTSIDE = ["the gravitational-wave reparameterisations (distance converters, delta-phase)", "the prime priors of ToCartesian / AnglePair", "the comoving-distance converter of the GW reparameterisations (astropy, spline tables)", "detect_edge's histogram heuristic (its result is a symbolic choice through the code's own test= hook)",
            "rounding near the bounds (the eps clip of logit is a branch, not measured)", "combinations of more than two reparameterisations"]
 
 PARALLEL_UNITS = True
@@ -494,10 +494,11 @@ def make_angle_prior(kind):
 def make_to_cartesian(mode):
     def body(ctx):
         from nessai.reparameterisations.angle import ToCartesian
-        _pi(ctx)
+        pi = _pi(ctx)
         lo, hi = ctx.real("lo", -3, 3), ctx.real("hi", -3, 3)
         ctx.assume(lo < hi)
-        rp = ToCartesian(parameters=["a"], prior_bounds={"a": [lo, hi]}, mode=mode)
+        # the class default scale=np.pi is bound at import time; pass the same pi the trigonometric axioms use
+        rp = ToCartesian(parameters=["a"], prior_bounds={"a": [lo, hi]}, mode=mode, scale=pi)
         rp.chi = _Chi(ctx)
         X = {"a": []}
         for i in range(1):
@@ -531,6 +532,10 @@ def make_angle_pair(convention, radial):
             ctx.assume((hv > 0) & (hv < 2 * pi))
             vv = ctx.real(f"v{i}", -4, 4)
             ctx.assume((vv > vlo) & (vv < vhi))     # the poles are excluded
+            if ctx.mode == "sym":
+                snp = _snp(ctx)
+                # sign of the trigonometric functions on the open interval (ground instances of a true fact)
+                ctx.axiom(snp.sin(vv) > 0 if convention == "az-zen" else snp.cos(vv) > 0)
             X["h"].append(hv)
             X["v"].append(vv)
             if radial:
@@ -588,8 +593,11 @@ def units(tier):
     for kind in ("sine", "uniform"):
         us.append(Unit(f"angle_prime_prior[{kind}]", make_angle_prior(kind), MODS, dict(opts, exp_axioms="full"), expect_cover=["end"], mutants=["prior"] if kind == "sine" else [], twin_runs=10, witness_every=1, nproc=1, time_budget_s=600))
     us.append(Unit("angle[auxiliary_radius]", make_angle_aux_radius(), MODS, opts, expect_cover=["end"], twin_runs=10, witness_every=2, nproc=1))
-    # ToCartesian and AnglePair harnesses exist (make_to_cartesian / make_angle_pair) but are not registered:
-    # with the ground trigonometric axioms z3 returns `unknown` / spurious models on them within 10 minutes (see DESIGN.md).
+    for mode in ("duplicate", "split", "half"):
+        us.append(Unit(f"to_cartesian[{mode}]", make_to_cartesian(mode), MODS, opts, expect_cover=["end"], twin_runs=10, witness_every=2, nproc=1, time_budget_s=600))
+    for conv in ("az-zen", "ra-dec"):
+        for radial in (True, False):
+            us.append(Unit(f"angle_pair[{conv},radial={radial}]", make_angle_pair(conv, radial), MODS, opts, expect_cover=["end"], twin_runs=10, witness_every=2, nproc=1, time_budget_s=600))
     us.append(Unit("combined[affine+logit]", make_combined(), MODS, opts, expect_cover=["end"], twin_runs=10, witness_every=2, nproc=1))
     us.append(Unit("registry_1d", make_registry(), MODS + ["nessai.reparameterisations"], opts, expect_cover=["end"], twin_runs=30, witness_every=2, nproc=1, time_budget_s=900))
     return us
